@@ -72,15 +72,38 @@ Definition ctr (e : event) : Z :=
 Fixpoint exc (l : list event) : Z := match l with [] => 0 | e :: r => ctr e + exc r end%Z.
 Definition Bal (s : pst) : Prop := (forall j, 0 <= exc (skipn j (evs s)))%Z /\ exc (evs s) = 0%Z.
 
-Definition LiveOK (s : pst) : Prop :=
-  (forall m, In m (live s) -> slot s m = Some (EStart K_TOMBSTONE None)) /\ EvOK s /\ Bal s.
+(* token accounting: the Token events carry exactly the input tokens consumed so far, each at
+   least one raw token *)
+Definition tokn (e : event) : nat := match e with EToken _ n => n | _ => 0 end.
+Fixpoint toksum (l : list event) : nat := match l with [] => 0 | e :: r => tokn e + toksum r end.
+Definition tokpos (e : event) : Prop := match e with EToken _ n => 0 < n | _ => True end.
+Definition TokOK (s : pst) : Prop := toksum (evs s) = pos s /\ Forall tokpos (evs s).
 
-Definition plainev (e : event) : Prop := match e with EToken _ _ | EError => True | _ => False end.
+Definition LiveOK (s : pst) : Prop :=
+  (forall m, In m (live s) -> slot s m = Some (EStart K_TOMBSTONE None)) /\ EvOK s /\ Bal s /\ TokOK s.
+
+Definition plainev (e : event) : Prop := match e with EToken _ n => 0 < n | EError => True | _ => False end.
+
+Lemma toksum_app a b : toksum (a ++ b) = toksum a + toksum b.
+Proof. induction a as [|e a IH]; cbn [app toksum]; [reflexivity|]. rewrite IH. lia. Qed.
+Lemma toksum_set_nth l p x old :
+  nth_error l p = Some old -> tokn x = tokn old -> toksum (set_nth l p x) = toksum l.
+Proof.
+  revert p. induction l as [|e l IH]; intros [|p] H Hx; cbn in H; try discriminate.
+  - injection H as ->. cbn. lia.
+  - cbn [set_nth toksum]. rewrite (IH p H Hx). reflexivity.
+Qed.
+Lemma forall_set_nth {A} (P : A -> Prop) l p x : Forall P l -> P x -> Forall P (set_nth l p x).
+Proof.
+  intros H Hx. revert p. induction H as [|e l He Hl IH]; intros [|p]; cbn; auto.
+Qed.
+Lemma plain_tokpos l : Forall plainev l -> Forall tokpos l.
+Proof. induction 1 as [|e l He _ IH]; constructor; auto. destruct e; cbn in *; auto. Qed.
 
 Lemma exc_app a b : exc (a ++ b) = (exc a + exc b)%Z.
 Proof. induction a as [|e a IH]; cbn [app exc]; [reflexivity|]. rewrite IH. lia. Qed.
 Lemma exc_plain l : Forall plainev l -> exc l = 0%Z.
-Proof. induction 1 as [|e l He _ IH]; cbn [exc]; [reflexivity|]. rewrite IH. destruct e; cbn in *; tauto || lia. Qed.
+Proof. induction 1 as [|e l He _ IH]; cbn [exc]; [reflexivity|]. rewrite IH. destruct e; cbn in *; try tauto; lia. Qed.
 Lemma skipn_app_le {A} (a b : list A) j : j <= length a -> skipn j (a ++ b) = skipn j a ++ b.
 Proof. revert j. induction a as [|x a IH]; intros [|j] H; cbn in *; auto; try lia. apply IH. lia. Qed.
 Lemma skipn_app_ge {A} (a b : list A) j : length a <= j -> skipn j (a ++ b) = skipn (j - length a) b.
@@ -124,7 +147,7 @@ Proof.
 Qed.
 (* token/error events appended, nothing else touched *)
 Definition Appends (s s' : pst) : Prop :=
-  live s' = live s /\ exists l, evs s' = l ++ evs s /\ Forall plainev l.
+  live s' = live s /\ exists l, evs s' = l ++ evs s /\ Forall plainev l /\ pos s' = pos s + toksum l.
 
 Lemma appends_slot s s' i e : Appends s s' -> slot s i = Some e -> slot s' i = Some e.
 Proof.
@@ -133,7 +156,7 @@ Proof.
 Qed.
 Lemma appends_slot_inv s s' i e : Appends s s' -> slot s' i = Some e -> slot s i = Some e \/ plainev e.
 Proof.
-  intros [_ [l [Hl Hp]]] H. rewrite slot_rev in *. rewrite Hl, rev_app_distr in H.
+  intros [_ [l [Hl [Hp _]]]] H. rewrite slot_rev in *. rewrite Hl, rev_app_distr in H.
   destruct (lt_dec i (length (rev (evs s)))) as [Hi|Hi].
   - left. rewrite nth_error_app1 in H by exact Hi. exact H.
   - right. rewrite nth_error_app2 in H by lia. apply nth_error_In in H. apply in_rev in H.
@@ -154,18 +177,21 @@ Lemma appends_nt s s' m : Appends s s' -> NT s m -> NT s' m.
 Proof. intros HA H i d Hp. apply H. eapply appends_ptr; eauto. Qed.
 Lemma appends_liveok s s' : Appends s s' -> LiveOK s -> LiveOK s'.
 Proof.
-  intros HA [HL [HE HB]]. split; [|split].
+  intros HA [HL [HE [HB [HT1 HT2]]]]. split; [|split; [|split]].
   - intros m Hm. pose proof HA as [E _]. rewrite E in Hm. eapply appends_slot; eauto.
   - intros i d Hp. apply (appends_ptr _ _ _ _ HA) in Hp. destruct (HE i d Hp) as [H1 H2].
     split; auto. eapply appends_is_start; eauto.
-  - destruct HA as [_ [l [El Hp]]]. unfold Bal. rewrite El. apply bal_app_plain; auto.
+  - destruct HA as [_ [l [El [Hp _]]]]. unfold Bal. rewrite El. apply bal_app_plain; auto.
+  - destruct HA as [_ [l [El [Hp Hpos]]]]. split.
+    + rewrite El, toksum_app, Hpos, HT1. lia.
+    + rewrite El. apply Forall_app. split; [apply plain_tokpos; exact Hp|exact HT2].
 Qed.
 Lemma appends_refl s : Appends s s.
-Proof. split; auto. exists []; auto. Qed.
+Proof. split; auto. exists []. cbn. auto. Qed.
 Lemma appends_trans a b c : Appends a b -> Appends b c -> Appends a c.
 Proof.
-  intros [H1 [l1 [E1 P1]]] [H2 [l2 [E2 P2]]]. split; [congruence|]. exists (l2 ++ l1).
-  split; [rewrite E2, E1, app_assoc; auto|apply Forall_app; auto].
+  intros [H1 [l1 [E1 [P1 Q1]]]] [H2 [l2 [E2 [P2 Q2]]]]. split; [congruence|]. exists (l2 ++ l1).
+  split; [rewrite E2, E1, app_assoc; auto|split; [apply Forall_app; auto|rewrite toksum_app; lia]].
 Qed.
 
 (* ---- the threaded state predicate ----
@@ -209,8 +235,8 @@ Proof.
   intros Hm Hf s. unfold bind. specialize (Hm s). destruct (m s) as [a s1| |]; auto.
   specialize (Hf a s1). destruct (f a s1); auto. eapply appends_trans; eauto.
 Qed.
-Lemma pure_push e : plainev e -> Pure (push e).
-Proof. intros He s. split; auto. exists [e]; auto. Qed.
+Lemma pure_push e : plainev e -> tokn e = 0 -> Pure (push e).
+Proof. intros He Ht s. split; auto. exists [e]. cbn [app toksum pos]. rewrite Ht. split; [reflexivity|split; [auto|lia]]. Qed.
 Lemma pure_panic {A} w : ~ mark w -> Pure (@panic A w).
 Proof. intros H s. exact H. Qed.
 
@@ -222,21 +248,26 @@ Proof. intros s. unfold nth_tok. destruct (n <=? 3); [apply appends_refl|cbn; ta
 Lemma pure_at k : Pure (at_ inp k). Proof. intros s. apply appends_refl. Qed.
 Lemma pure_nth_at n k : Pure (nth_at inp n k). Proof. intros s. apply appends_refl. Qed.
 Lemma pure_at_ts ts : Pure (at_ts inp ts). Proof. intros s. apply appends_refl. Qed.
-Lemma pure_do_bump k n : Pure (do_bump k n).
-Proof. intros s. split; auto. exists [EToken k n]. split; [reflexivity|repeat constructor]. Qed.
+Lemma n_raw_of_pos k : 0 < n_raw_of k.
+Proof. unfold n_raw_of. destruct (assocN k composite2); [lia|]. destruct (assocN k composite3); lia. Qed.
+Lemma pure_do_bump k n : 0 < n -> Pure (do_bump k n).
+Proof.
+  intros Hn s. split; auto. exists [EToken k n]. cbn [app toksum tokn pos].
+  split; [reflexivity|split; [repeat constructor; exact Hn|lia]].
+Qed.
 Lemma pure_eat k : Pure (eat inp k).
 Proof.
   intros s. unfold eat. destruct (nth_at_pure inp (pos s) 0 k); [|apply appends_refl].
-  cbn. split; auto. eexists [_]. split; [reflexivity|repeat constructor].
+  pose proof (pure_do_bump k (n_raw_of k) (n_raw_of_pos k) s) as H. unfold do_bump in *. exact H.
 Qed.
 Lemma pure_bump k : Pure (bump inp k).
 Proof. unfold bump. apply pure_bind; [apply pure_eat|]. intros []; [apply pure_ret|apply pure_panic; cbn; tauto]. Qed.
 Lemma pure_bump_any : Pure (bump_any inp).
 Proof.
   intros s. unfold bump_any. destruct (N.eqb _ _); [apply appends_refl|].
-  cbn. split; auto. eexists [_]. split; [reflexivity|repeat constructor].
+  apply (pure_do_bump _ 1 ltac:(lia) s).
 Qed.
-Lemma pure_error : Pure error. Proof. apply pure_push. exact I. Qed.
+Lemma pure_error : Pure error. Proof. apply pure_push; [exact I|reflexivity]. Qed.
 Lemma pure_expect k : Pure (expect inp k).
 Proof.
   unfold expect. apply pure_bind; [apply pure_eat|]. intros []; [apply pure_ret|].
@@ -363,6 +394,17 @@ Proof.
 Qed.
 Lemma ctr_tomb fp : ctr (EStart K_TOMBSTONE fp) = 0%Z.
 Proof. reflexivity. Qed.
+Lemma tokok_push s e lv : tokn e = 0 -> tokpos e -> TokOK s -> TokOK {| pos := pos s; evs := e :: evs s; live := lv |}.
+Proof. intros He Hp [H1 H2]. split; [cbn [evs toksum pos]; lia|constructor; auto]. Qed.
+Lemma tokok_set_slot s i e old :
+  slot s i = Some old -> tokn e = tokn old -> tokpos e -> TokOK s -> TokOK (set_slot s i e).
+Proof.
+  intros Hs He Hp [H1 H2]. apply slot_nth_error in Hs. split.
+  - cbn [set_slot evs pos]. rewrite (toksum_set_nth _ _ _ _ Hs He). exact H1.
+  - cbn [set_slot evs]. apply forall_set_nth; auto.
+Qed.
+Lemma tokok_live s lv : TokOK s -> TokOK {| pos := pos s; evs := evs s; live := lv |}.
+Proof. intros H. exact H. Qed.
 
 (* start *)
 Lemma WB_start (Q : marker -> pst -> Prop) own Lb b0 V W s :
@@ -371,15 +413,16 @@ Lemma WB_start (Q : marker -> pst -> Prop) own Lb b0 V W s :
               (forall i, Valid s i -> Valid s' i) -> Q (nev s) s') ->
   WB start Q s.
 Proof.
-  intros [[H1 [HE HB]] [H2 [H3 [H4 [H5 [H6 [H7 H8]]]]]]] HQ. unfold WB, start.
+  intros [[H1 [HE [HB HT]]] [H2 [H3 [H4 [H5 [H6 [H7 H8]]]]]]] HQ. unfold WB, start.
   assert (forall k d', EStart K_TOMBSTONE None <> EStart k (Some d')) as Hne by (intros; discriminate).
   cbn [app] in *. apply HQ.
-  - split; [split; [|split]|split; [|split; [|split; [|split; [|split; [|split]]]]]].
+  - split; [split; [|split; [|split]]|split; [|split; [|split; [|split; [|split; [|split]]]]]].
     + intros m [Hm|Hm].
       * subst m. apply slot_push_new.
       * apply slot_push_old. apply H1. exact Hm.
     + apply evok_push; auto.
     + apply bal_push; auto.
+    + apply tokok_push; [reflexivity|exact I|exact HT].
     + cbn [live app]. rewrite H2. reflexivity.
     + intros i Hi. destruct (H3 i Hi) as [Hs Hn]. split.
       * apply is_start_push. exact Hs.
@@ -454,7 +497,7 @@ Lemma WB_complete_gen m k (Q : cmarker -> pst -> Prop) s :
               (forall i, NT s i -> NT s' i) -> Q (m, k) s') ->
   WB (complete m k) Q s.
 Proof.
-  intros Hk [H1 [HE [HB1 HB2]]] H6 Hl HQ.
+  intros Hk [H1 [HE [[HB1 HB2] HT]]] H6 Hl HQ.
   unfold complete. apply WB_bind. apply WB_use_marker; auto.
   set (s1 := {| pos := pos s; evs := evs s; live := remove_nat m (live s) |}).
   assert (slot s1 m = Some (EStart K_TOMBSTONE None)) as Hs by (apply (H1 m Hl)).
@@ -472,7 +515,7 @@ Proof.
   destruct (bal_set_slot s1 m (EStart k None) _ Hs ltac:(rewrite Hck, ctr_tomb; lia) HB1) as [HB1' HB2'].
   fold s2 in HB1', HB2'. change (evs s1) with (evs s) in HB2'. rewrite HB2, Hck, ctr_tomb in HB2'.
   apply HQ.
-  - split; [|split].
+  - split; [|split; [|split]].
     + intros m' Hm'. cbn [live set_slot s2 s1] in Hm'. apply (remove_nat_notin _ _ _ H6) in Hm'.
       destruct Hm' as [Hne Hm']. apply slot_push_old. unfold s2. rewrite slot_set_other; auto.
       apply (H1 m' Hm').
@@ -480,6 +523,8 @@ Proof.
     + split.
       * intros [|j]; cbn [skipn evs exc ctr]; [lia|apply HB1'].
       * cbn [evs exc ctr]. lia.
+    + apply (tokok_push s2 EFinish (live s2)); [reflexivity|exact I|].
+      apply (tokok_set_slot s1 m _ _ Hs); [reflexivity|exact I|exact HT].
   - reflexivity.
   - cbn [live set_slot s2 s1]. apply remove_nat_nodup; auto.
   - exact Hst.
@@ -564,7 +609,7 @@ Lemma WB_abandon_gen m (Q : unit -> pst -> Prop) s :
               (forall i, NT s i -> NT s' i) -> Q tt s') ->
   WB (abandon m) Q s.
 Proof.
-  intros [H1 [HE [HB1 HB2]]] H6 Hl Hnt HQ.
+  intros [H1 [HE [[HB1 HB2] [HT1 HT2]]]] H6 Hl Hnt HQ.
   unfold abandon. apply WB_bind. apply WB_use_marker; auto.
   set (s1 := {| pos := pos s; evs := evs s; live := remove_nat m (live s) |}).
   pose proof (H1 m Hl) as Hs. pose proof (slot_some_lt _ _ _ Hs) as Hlt.
@@ -583,7 +628,7 @@ Proof.
     assert (forall i d, Ptr s2 i d -> Ptr s i d) as Hptr.
     { intros i d [k Hp]. exists k. eapply slot_pop_inv; eauto. }
     apply HQ.
-    + split; [|split].
+    + split; [|split; [|split]].
       * intros m' Hm'. cbn [live s2 s1] in Hm'. apply (remove_nat_notin _ _ _ H6) in Hm'.
         destruct Hm' as [Hne Hm']. apply Hother; auto.
       * intros i d Hp. apply Hptr in Hp. destruct (HE i d Hp) as [Hd [k' [fp' Hi]]]. split; auto.
@@ -591,6 +636,7 @@ Proof.
       * split.
         -- intros j. specialize (HB1 (S j)). cbn [skipn] in HB1. exact HB1.
         -- cbn [evs s2]. cbn [exc] in HB2. rewrite ctr_tomb in HB2. lia.
+      * split; [cbn [evs s2 pos s1]; cbn [toksum tokn] in HT1; lia|inversion HT2; auto].
     + reflexivity.
     + cbn [live s2 s1]. apply remove_nat_nodup; auto.
     + intros i Hi [k' [fp' Hs']]. exists k', fp'. apply Hother; auto.
@@ -599,10 +645,11 @@ Proof.
     + right. unfold nev. cbn [evs s2]. rewrite Ev. reflexivity.
     + intros i Hi j d Hp. apply Hi. apply Hptr. exact Hp.
   - apply HQ.
-    + split; [|split].
+    + split; [|split; [|split]].
       * intros m' Hm'. cbn [live s1] in Hm'. apply In_remove_nat in Hm'. apply (H1 m' Hm').
       * exact HE.
       * split; [exact HB1|exact HB2].
+      * split; [exact HT1|exact HT2].
     + reflexivity.
     + cbn [live s1]. apply remove_nat_nodup; auto.
     + intros i _ Hi. exact Hi.
@@ -644,7 +691,7 @@ Lemma WB_precede_gen cm (Q : marker -> pst -> Prop) s :
               (forall i, i <> nev s -> NT s i -> NT s' i) -> Q (nev s) s') ->
   WB (precede cm) Q s.
 Proof.
-  intros [H1 [HE [HB1 HB2]]] H6 [[k [fp Hc]] Hn] HQ. unfold precede, WB, bind, start.
+  intros [H1 [HE [[HB1 HB2] HT]]] H6 [[k [fp Hc]] Hn] HQ. unfold precede, WB, bind, start.
   set (s1 := {| pos := pos s; evs := EStart K_TOMBSTONE None :: evs s; live := nev s :: live s |}).
   assert (slot s1 (fst cm) = Some (EStart k fp)) as Hc1 by (apply slot_push_old; exact Hc).
   rewrite Hc1. pose proof (slot_some_lt _ _ _ Hc) as Hlt.
@@ -664,7 +711,7 @@ Proof.
   destruct (bal_set_slot s1 (fst cm) (EStart k (Some (nev s - fst cm))) _ Hc1
               ltac:(cbn [ctr]; lia) HB1') as [HB1'' HB2''].
   apply HQ.
-  - split; [|split].
+  - split; [|split; [|split]].
     + intros m' Hm'. cbn [live set_slot s2 s1] in Hm'. unfold s2.
       assert (fst cm <> m') as Hne by (intros <-; destruct Hm' as [Hm'|Hm']; [lia|contradiction]).
       rewrite slot_set_other by auto.
@@ -673,6 +720,8 @@ Proof.
       * destruct (HE i d Hp) as [Hd Hi]. split; auto.
       * split; [lia|]. replace (fst cm + (nev s - fst cm)) with (nev s) by lia. exact Hnew.
     + split; [exact HB1''|]. fold s2 in HB2''. rewrite HB2''. cbn [ctr]. lia.
+    + apply (tokok_set_slot s1 (fst cm) _ _ Hc1); [reflexivity|exact I|].
+      apply (tokok_push s (EStart K_TOMBSTONE None) (nev s :: live s)); [reflexivity|exact I|exact HT].
   - reflexivity.
   - cbn [live set_slot s2 s1]. constructor; auto. intros Hin. apply H1 in Hin. apply slot_some_lt in Hin. lia.
   - exact Hst.
@@ -711,7 +760,7 @@ Lemma WB_extend_to_gen cm m (Q : cmarker -> pst -> Prop) s :
               (forall i, i <> fst cm -> NT s i -> NT s' i) -> Q cm s') ->
   WB (extend_to cm m) Q s.
 Proof.
-  intros [H1 [HE [HB1 HB2]]] H6 Hl [Hcs Hnc] Hlt0 HQ.
+  intros [H1 [HE [[HB1 HB2] HT]]] H6 Hl [Hcs Hnc] Hlt0 HQ.
   unfold extend_to. apply WB_bind. apply WB_use_marker; auto.
   set (s1 := {| pos := pos s; evs := evs s; live := remove_nat m (live s) |}).
   pose proof (H1 m Hl) as Hs. pose proof (slot_some_lt _ _ _ Hs) as Hlt.
@@ -727,7 +776,7 @@ Proof.
   destruct (bal_set_slot s1 m (EStart K_TOMBSTONE (Some (fst cm - m))) _ Hs
               ltac:(rewrite !ctr_tomb; lia) HB1) as [HB1' HB2'].
   apply HQ.
-  - split; [|split].
+  - split; [|split; [|split]].
     + intros m' Hm'. cbn [live set_slot s2 s1] in Hm'. apply (remove_nat_notin _ _ _ H6) in Hm'.
       destruct Hm' as [Hn' Hm']. unfold s2. rewrite slot_set_other; auto. apply (H1 m' Hm').
     + intros i d Hp. apply Hptr in Hp. destruct Hp as [Hp|[-> ->]].
@@ -735,6 +784,7 @@ Proof.
       * split; [lia|]. replace (m + (fst cm - m)) with (fst cm) by lia. apply Hst. exact Hcs.
     + split; [exact HB1'|]. fold s2 in HB2'. rewrite HB2'. rewrite !ctr_tomb.
       change (evs s1) with (evs s). lia.
+    + apply (tokok_set_slot s1 m _ _ Hs); [reflexivity|exact I|exact HT].
   - reflexivity.
   - cbn [live set_slot s2 s1]. apply remove_nat_nodup; auto.
   - exact Hst.
